@@ -213,4 +213,11 @@ def run(tier, rep):
              "delays": (i % 2 == 1)} for i in range(shards)]
     for res in sandbox.run_many("vf.props.c07", "worker", args, workers=shards, timeout=1500):
         rep.merge_worker(res)
+    from .. import realbpf
+    if not realbpf.build():
+        kres = sandbox.run("vf.props.kernelsec", "c07_worker", {"tier": tier, "rounds": 4 if tier == "quick" else 40}, timeout=900, pidns=False)
+        if kres.get("skip_reason"):
+            rep.coverage["kernel_section_skip_reason"] = kres["skip_reason"][:300]
+            kres.pop("inconclusive", None)
+        rep.merge_worker(kres)
     rep.assumptions += ["hook H1 stands in for the kernel audit map; lookup and remove are separate traced operations"]
